@@ -270,8 +270,7 @@ def run_history(s, fam, kind, sizes, cls, mod, h, reported, shapes):
         if W.crefs() != cr:
             clean = False
             fail("container", i, "the containers (self, operand) gained %r references" % ([b - a for a, b in zip(cr, W.crefs())],))
-    if not clean:
-        KEEP.append(W)
+    if not clean:           # only surplus references: releasing ours is safe, the end check is pointless
         return False
     shapes.add(repr(H.shape(W.t, W.is_set)) if W.is_tree and W.t._p_changed is not None else repr(sl2))
     # destroying the containers releases everything
@@ -323,7 +322,7 @@ def main():
     a = ap.parse_args()
     quick = H.tier() == "quick"
     sizes = [(2, 2), (3, 2)] if quick else [(2, 2), (3, 2), (2, 3), (4, 3)]
-    n_random = 1500 if quick else 20000
+    n_random = 1500 if quick else 10000
     s = Standin(name="refcount_rt",
                 bound="C extension, families with object keys and/or object values; per (family, kind, node sizes %s): 4 scripted "
                       "fill/empty histories over 6 keys, one fill + each extra operation, every history of <= 2 core mutators, %d "
